@@ -289,6 +289,23 @@ func GenDisplacementFamily(t *rapid.T) *World {
 		}
 		w.Groups = append(w.Groups, Group{Name: "want", Queue: "x", PriorityClass: "build-preemptible", Preemptibility: "preemptible", MinMember: 1, CreatedMin: 10,
 			Pods: []Pod{{Name: "want-p0", CPU: 100, MemMB: 64, GPUs: 1, State: Pending, CreatedMin: 10}}})
+		// bystander queues: each is full with pods of the pending workload's own priority, sits exactly at its quota
+		// with no over-quota weight (nothing to reclaim, nothing to preempt) and has a pending workload identical to
+		// 'want'. They can obtain nothing and must not keep 'want' from preempting inside its own queue.
+		for d := 0; d < pickInt(t, "bystanderQueues", 0, 0, 1, 2); d++ {
+			qn := fmt.Sprintf("y%d", d)
+			node := len(w.Nodes)
+			w.Nodes = append(w.Nodes, Node{Name: fmt.Sprintf("n%d", node), GPUs: gpn, GPUMem: 16000, CPU: 32000, MemMB: 65536, Pods: 110, Labels: map[string]string{}})
+			w.Queues = append(w.Queues, Queue{Name: qn, Parent: "root", GPU: QRes{Quota: float64(gpn), Limit: -1, Weight: 0}, CPU: free, Mem: free})
+			w.Queues[0].GPU.Quota += float64(gpn)
+			for k := 0; k < gpn; k++ {
+				w.Groups = append(w.Groups, Group{Name: fmt.Sprintf("%srun%d", qn, k), Queue: qn, PriorityClass: "build-preemptible", Preemptibility: "preemptible", MinMember: 1,
+					CreatedMin: 300 + len(w.Groups), LastStartMin: 1000,
+					Pods: []Pod{{Name: fmt.Sprintf("%srun%d-p0", qn, k), CPU: 100, MemMB: 64, GPUs: 1, State: Running, Node: fmt.Sprintf("n%d", node), CreatedMin: 300}}})
+			}
+			w.Groups = append(w.Groups, Group{Name: qn + "want", Queue: qn, PriorityClass: "build-preemptible", Preemptibility: "preemptible", MinMember: 1, CreatedMin: between(t, 5, 15, "bystanderAge"),
+				Pods: []Pod{{Name: qn + "want-p0", CPU: 100, MemMB: 64, GPUs: 1, State: Pending, CreatedMin: 10}}})
+		}
 	} else {
 		// queue a: deserved quota covers its running pods + the pending one; queue b: strictly above its quota even after losing one
 		aRun := between(t, 0, total-1, "aRunning")
